@@ -161,6 +161,33 @@ def serialize {V} (size : Nat) (ser : V → Option Val) (d : Dict V) : Option (O
     let c ← writeEdge ser t size
     some (some c)
 
+/-! ### one `HashMap` object under a history of calls -/
+
+/-- the calls a user makes on ONE `HashMap` object: `set_int_key(k, v)` (a rejected key raises and leaves the object as it
+was) and `serialize()` (returns a value; the object has no other state than its `map`). -/
+inductive HOp (V : Type) where
+  | set (k : Int) (v : V)
+  | serialize
+
+/-- run a history on an object whose map is `d`: final map, and the results of the `serialize()` calls in call order -/
+def runOps {V} (size : Nat) (ser : V → Option Val) : List (HOp V) → Dict V → Dict V × List (Option (Option Cell))
+  | [], d => (d, [])
+  | .set k v :: rest, d => runOps size ser rest ((setIntKey size k v d).getD d)
+  | .serialize :: rest, d =>
+    let r := runOps size ser rest d
+    (r.1, serialize size ser d :: r.2)
+
+/-- the `set` calls of a history -/
+def setsOf {V} : List (HOp V) → List (Int × V)
+  | [] => []
+  | .set k v :: rest => (k, v) :: setsOf rest
+  | .serialize :: rest => setsOf rest
+
+/-- a history's `set` calls applied leniently (a rejected one is skipped, as the exception leaves the object unchanged) -/
+def applySets {V} (size : Nat) : List (Int × V) → Dict V → Dict V
+  | [], d => d
+  | (k, v) :: rest, d => applySets size rest ((setIntKey size k v d).getD d)
+
 /-! ### parser -/
 
 /-- `deserialize_unary` : (n, rest); `none` = ran out of bits -/
